@@ -498,7 +498,26 @@ pub fn gen(prop: &str, seed: u64, index: u64, _tier: Tier) -> Case {
                 });
                 variant = "tamper-boundary-sized".into();
             } else {
-            match rng.below(10) {
+            match rng.below(11) {
+                10 => {
+                    // a build that fails in between (one source broken, then repaired): whatever
+                    // it left, and whoever it left behind, verify judges the tree as it is
+                    if let Some(op) = error_edit_op(&mut rng, &project, &a) {
+                        let restore = match &op {
+                            Op::Write { path, .. } | Op::Remove { path } => project.file(path).map(|d| Op::Write {
+                                path: path.clone(),
+                                data: d.clone(),
+                            }),
+                            _ => None,
+                        };
+                        if let Some(r) = restore {
+                            ops.push(op);
+                            ops.push(run_op(&mut rng, ModeS::Build, &inputs, recursive, tn, "failing-build"));
+                            ops.push(r);
+                            variant = "failed-build-between".into();
+                        }
+                    }
+                }
                 9 => {
                     // a temp file changed by hand: verify regenerates it, outputs are still fresh
                     let temps: Vec<String> = req.iter().flat_map(|i| a.sources[*i].temps.clone()).collect();
